@@ -71,7 +71,8 @@ def int_values(n, signed, rng):
     vs = set([lo, hi, lo - 1, hi + 1, 0, 1, -1, lo + 1, hi - 1, -lo if -lo <= hi + 1 else 0])
     for _ in range(30):
         vs.add(G.edge_int(rng, lo - 1, hi + 1))
-    return sorted(vs) + ['x', None, b'a']
+    # values that are not ints but that int() would accept, and other wrong types: both sides must reject them alike
+    return sorted(vs) + ['x', None, b'a', 3.7, 2.0, -1.5, '7', b'7', True, [1], float('nan'), construct.EnumIntegerString.new(1, 'one') if hasattr(construct, 'EnumIntegerString') else 'one']
 
 
 def laws(rng, tier):
@@ -163,6 +164,9 @@ def laws(rng, tier):
     out.append(('AlignedStruct(4, "a"/Byte, "b"/Int16ub)', 'Struct("a"/Aligned(4, Byte), "b"/Aligned(4, Int16ub))', [bytes(range(8)), bytes(7)], [dict(a=1, b=2)]))
     out.append(('Enum(Int16ub, E)', 'Enum(Int16ub, one=1, two=2, big=300)', [x.to_bytes(2, 'big') for x in range(0, 400)], ['one', 'two', 'big', 1, 300, 5, 'zzz', None]))
     out.append(('FlagsEnum(Byte, F)', 'FlagsEnum(Byte, a=1, b=2, c=8)', all_bytes(1, rng, 300), [dict(a=True), dict(a=True, c=True), 'a|b', 'c', 11, 'zz', dict(zz=True), None, '']))
+    out.append(('FlagsEnum(Byte, Z)', 'FlagsEnum(Byte, none=0, read=1, write=2, rw=3, hi=128)', all_bytes(1, rng, 300),
+                [dict(none=True), dict(read=True, none=True), 'none', 'none|read', 'rw', 'hi|none', 0, 3, 131, 'zz', dict(zz=True), None, '', dict()]))
+    out.append(('Enum(Byte, Z)', 'Enum(Byte, none=0, read=1, write=2, rw=3, hi=128)', all_bytes(1, rng, 300), ['none', 'read', 'rw', 'hi', 0, 3, 7, 'zz', None]))
     out.append(('Bitwise(GreedyBytes)', 'Restreamed(GreedyBytes, bytes2bits, 1, bits2bytes, 8, lambda n: n // 8)', [b'', b'\x01', b'\xff\x80'], [b'', b'\x00\x01' * 4, b'\x01' * 3, b'\x02' * 8]))
     out.append(('Bitwise(Bytes(16))', 'Transformed(Bytes(16), bytes2bits, 2, bits2bytes, 2)', [b'\xa5\x5a', b'\x01', b'\x01\x02\x03'], [b'\x01' * 16, b'\x00' * 15, b'\x02' * 16]))
     return out
